@@ -584,7 +584,6 @@ fn post(ctx: &Ctx) {
     ctx.require_label("quote-truncated", 500);
     ctx.require_label("delivered", 300);
     ctx.require_label("refused-silently:scmp-error", 100);
-    ctx.require_label("refused-silently:malformed-scmp", 30);
     ctx.require_label("scmp-error-quote-truncated", 100);
     ctx.require_label("router-echo-answered", 50);
 }
